@@ -372,7 +372,11 @@ def main(argv):
         violations += weak_violations
 
     wall = time.time() - t0
-    discharged = obligations - failed_obl
+    # obligations that fail as listed known findings are reported separately: `obligations` counts what this run
+    # requires to be discharged
+    known_obl = len([1 for h, u, fd in known_hits if fd is not None])
+    obligations = obligations - known_obl
+    discharged = obligations - (failed_obl - known_obl)
     rc = 0
     lines = []
     for hit, unit, fd in known_hits:
@@ -413,6 +417,7 @@ def main(argv):
             'clauses_not_decided': cfg.get('undecided', []),
             'clauses_decided': cfg.get('decided', []),
             'known_findings_hit': [h.get('text', '') for h, _, _ in known_hits],
+            'obligations_failing_as_known_findings': known_obl,
             'tool_trouble': trouble,
         },
         'assumptions': cfg.get('assumptions', []),
